@@ -79,6 +79,13 @@ def hostile_dgram(r, state):
     return b
 
 
+def summary_of(err):
+    m = re.search(r"(?m)^SUMMARY: .*$", err)
+    if m:
+        return m.group(0)[:300]
+    return re.sub(r"\s+", " ", err)[:300]
+
+
 def valgrind_scan(run, exe, lines):
     """run the parse driver under valgrind memcheck; bisect to one failing line"""
     def bad(ls):
@@ -114,8 +121,8 @@ def main(run):
         "memory safety of C outside the modelled parser is a runtime fact: it is observed by "
         "sanitizers on the explored inputs and states, not proved (heap lifetime, coap_debug.c "
         "printers, block/observe/OSCORE state machines)",
-        "TCP/WebSocket stream readers: chunking safety is C05's model; hostile streams are not yet "
-        "part of this check",
+        "TCP: hostile streams are delivered to a live server stream session (stage 5, crash/trap "
+        "oracle only); WebSocket framing: not yet driven by this check (chunking safety: C05)",
         "GnuTLS and libc are not instrumented"]
     run.prove()
     model = vlib.build_model()
@@ -235,7 +242,7 @@ def main(run):
                 if cj == ci:
                     err = e
             why = "sanitizer trap / crash / hang on hostile datagrams: " + (
-                re.sub(r"\s+", " ", err)[-300:] if err else o)
+                summary_of(err) if err else o)
         elif "canary=ok" not in o:
             why = "endpoint no longer answers a well-formed request after hostile input: " + o[-120:]
         else:
@@ -256,6 +263,61 @@ def main(run):
             if nviol <= 3:
                 run.violation(why, "case: %s\nimpl: %s\nreference verdicts: %s\n" % (c, o, verd),
                               tag="live%d" % nviol)
+    # ---- 5. hostile TCP streams against a live stream session --------------------------------
+    # (driver of C05: real server TCP session, scripted reads; here built with ASan+UBSan and fed
+    # streams C05 excludes: signalling Release/Abort followed by traffic, mutated frames, blind
+    # bytes, oversize declarations, every kind of cut)
+    import gen_stream
+    hs = vlib.build_driver("h_stream", ["h_stream.c"], variant="asan",
+                           wraps=["coap_socket_read", "coap_socket_write"])
+    r = tie.rng_for(run, "c02-tcp")
+    tl = [ln for ln in vlib.read_corpus("C02") if ln.startswith("tcp ")]
+    sig = [bytes([0x00, 0xe4]), bytes([0x00, 0xe5]), bytes([0x00, 0xe1]), bytes([0x00, 0xe2]),
+           bytes([0x00, 0xe3]), bytes([0x20, 0xe4, 0x21, 0x00]), bytes([0x10, 0xe5, 0x20]),
+           bytes([0x30, 0xe1, 0x24, 0x00, 0x00]), bytes([0x11, 0xe2, 0xaa, 0x20])]
+    for i in range(400 if quick else 12000):
+        stream, meta = gen_stream.gen_tcp_stream(r, small=(i % 3 != 0), allow_big=(i % 40 == 0))
+        x = r.random()
+        if x < 0.35:
+            k = r.randrange(0, len(meta["starts"]) + 1)
+            pos = meta["starts"][k] if k < len(meta["starts"]) else len(stream)
+            stream = stream[:pos] + r.choice(sig) + stream[pos:]
+        elif x < 0.6 and stream:
+            for _ in range(r.choice([1, 2, 3])):
+                stream = gen_wire.mutate(r, stream)
+        elif x < 0.7:
+            stream = gen_wire.rbytes(r, r.choice([1, 2, 3, 7, 20, 60]))
+        if not stream:
+            continue
+        for _ in range(2):
+            y = r.random()
+            if y < 0.3:
+                cuts = "-"
+            elif y < 0.5:
+                cuts = "x1"
+            else:
+                pts = sorted(set(r.randrange(1, len(stream)) for _ in range(r.choice([1, 2, 3, 5])))) \
+                    if len(stream) > 1 else []
+                cuts = gen_stream.cuts_to_token(pts, len(stream))
+            tl.append("tcp 0 %s %s" % (stream.hex(), cuts))
+    to, tcr = vlib.run_lines_robust(hs, tl, env=asan_env, timeout=1800)
+    ntcp = 0
+    for i, ln in enumerate(tl):
+        run.count(ln, True)
+        run.hist("tcp_stream_cut", "single" if ln.endswith(" -") else "bytewise" if ln.endswith(" x1") else "cuts")
+        if i % 200 == 7:
+            run.sample({"case": ln[:200], "impl": to[i][:160]})
+        if to[i].startswith("CRASH") or to[i].startswith("<not run>"):
+            ntcp += 1
+            err = ""
+            for (cj, rc, e) in tcr:
+                if cj == i:
+                    err = e
+            if ntcp <= 3:
+                run.violation("sanitizer trap / crash / hang on a hostile TCP stream: " + summary_of(err),
+                              "case: %s\nimpl: %s\n%s\n" % (ln, to[i], err), tag="tcp%d" % ntcp)
+    run.cov["tcp_stream_cases"] = len(tl)
+    run.cov["tcp_stream_failures"] = ntcp
     run.cov["live_cases"] = len(cases)
     run.cov["live_corpus_cases"] = ncorp
     run.cov["live_failures"] = nviol
